@@ -2,6 +2,7 @@ import re
 import copy
 import numpy as np
 import networkx as nx
+from pysmiles.smiles_helper import bonds_missing
 from .read_cgsmiles import read_cgsmiles
 from .read_fragments import read_fragments
 from .graph_utils import (merge_graphs,
@@ -358,6 +359,14 @@ class MoleculeResolver:
             # add the fragment id of the sequashed node
             self.molecule.nodes[node_to_keep]['fragid'] += self.molecule.nodes[node_to_keep]['contraction'][node_to_remove]['fragid']
             self.molecule.nodes[node_to_keep]['mapping'] += self.molecule.nodes[node_to_keep]['contraction'][node_to_remove]['mapping']
+            # the hydrogen count of the kept atom was derived for its own
+            # fragment only; the merged atom also has the bonds of the removed
+            # one, so it is recomputed from the merged connectivity. Otherwise
+            # the aromaticity correction sees a wrong valence for this atom.
+            if 'hcount' in self.molecule.nodes[node_to_keep]:
+                self.molecule.nodes[node_to_keep]['hcount'] = 0
+                missing = bonds_missing(self.molecule, node_to_keep)
+                self.molecule.nodes[node_to_keep]['hcount'] = max(0, missing)
 
     def resolve(self):
         """
